@@ -48,8 +48,7 @@ class C18(Check):
             'x filters drawn from the document\'s own paths (or none, or an unknown message-id); (b) the property itself on the real '
             'JunosXMLParser + RPCReplyListener + ExecuteRpc: 1-3 adjacent replies x filters / no filter x EVERY single cut position of short '
             'streams and random multi-cuts of longer ones, result compared with a DOM projection computed by the harness and with the '
-            'Two to four cuts inside the reply start tag, filters given as elements, filters rooted at the reply envelope, two sessions with interleaved reads, late replies. '
-            'mode-off result. Non-trivial = a reply with a filter or more than one read; distinct by case.')
+            'mode-off result. Two to four cuts inside the reply start tag, filters given as elements, filters rooted at the reply envelope, two sessions with interleaved reads, late replies. Non-trivial = a reply with a filter or more than one read; distinct by case.')
     TRUST = ['expat tokenising and the hand-over to the DOM parser are not modelled (environment)',
              '_delimiter_check (difflib heuristics) is NOT modelled at all: covered by the correspondence run only']
     ASSUMPTIONS = ['replies have no mixed content (Junos replies do not); filter tags are unprefixed']
